@@ -305,6 +305,9 @@ func TestVerifRequestLoop(t *testing.T) {
 		}
 		e.cl.Rules = nil
 		e.cl.ActionHook = nil
+		for _, r := range e.cl.Regions {
+			r.MetaHost = ""
+		}
 		e.cl.MetaMode = ""
 		e.cl.ZKErr = nil
 		for _, r := range e.cl.Regions {
@@ -323,8 +326,7 @@ func TestVerifRequestLoop(t *testing.T) {
 		}
 		e.mu.Unlock()
 		e.flush(ndj, name, e.single)
-		VerifHook = nil
-		e.c.Close()
+		e.c.Close() // (the hook stays installed: a write here could race with goroutines a defective client leaves behind)
 		time.Sleep(2 * time.Minute)
 		synctest.Wait()
 		rep.Scenarios++
@@ -428,6 +430,33 @@ func TestVerifRequestLoop(t *testing.T) {
 		finish(e, name)
 	})
 
+	// ---- W4: hbase:meta lags behind a move: the old server answers "not serving" (to requests and to the probe) while the region
+	// is already served elsewhere; meta catches up a little later. The establisher must look the region up again.
+	for _, late := range []time.Duration{50 * time.Millisecond, 3 * time.Second} {
+		for _, warm := range []bool{true, false} {
+			synctest.Test(t, func(t *testing.T) {
+				name := fmt.Sprintf("W4/meta-lags-behind-a-move/catchup=%v/known-before=%v", late, warm)
+				e := newRLEnv(1, 2)
+				regs := e.cl.OnlineRegions("t")
+				if warm {
+					e.goGet("a")
+					time.Sleep(time.Second)
+					synctest.Wait()
+				}
+				to := "rs3"
+				if regs[0].Host == "rs3" {
+					to = "rs2"
+				}
+				e.cl.MoveSlowly(regs[0], to)
+				e.goGet("a")
+				e.goPut("b")
+				time.Sleep(late)
+				e.cl.MetaCatchUp()
+				finish(e, name)
+			})
+		}
+	}
+
 	// ---- X: every exception class on the first attempt
 	classes := []string{
 		"org.apache.hadoop.hbase.CallQueueTooBigException", "org.apache.hadoop.hbase.exceptions.RegionOpeningException",
@@ -507,7 +536,7 @@ func TestVerifRequestLoop(t *testing.T) {
 				regs := e.cl.OnlineRegions("t")
 				r := regs[sr.Intn(len(regs))]
 				s := servers[sr.Intn(3)]
-				switch x := sr.Intn(11); x {
+				switch x := sr.Intn(13); x {
 				case 0:
 					e.cl.Move(r, s)
 					desc = append(desc, "move")
@@ -550,6 +579,12 @@ func TestVerifRequestLoop(t *testing.T) {
 				case 9:
 					e.cl.Flap(r, verifsim.ExcAborted, 1)
 					desc = append(desc, "serverfatal")
+				case 11:
+					e.cl.MoveSlowly(r, s)
+					desc = append(desc, "moveslowly")
+				case 12:
+					e.cl.MetaCatchUp()
+					desc = append(desc, "metacatchup")
 				case 10:
 					e.cl.Lock()
 					e.cl.Servers[s].DropOnAccept = !e.cl.Servers[s].DropOnAccept
@@ -561,7 +596,8 @@ func TestVerifRequestLoop(t *testing.T) {
 				}
 			}
 			callers(g - g/2)
-			// meta must be somewhere that is up
+			// meta must be somewhere that is up, and up to date
+			e.cl.MetaCatchUp()
 			e.cl.StartServer("ms")
 			e.cl.StartServer("rs1")
 			e.cl.StartServer("rs2")
